@@ -17,10 +17,10 @@ type Node struct {
 	Label    string // codec the field belongs to (see labelOf)
 	IsMsg    bool   // payload is an embedded message that was parsed into Kids
 	Kids     []Node
-	Declared bool // the number is declared by the descriptor at this level
-	Embedded bool // the library's "embedded" flag: base kind of the field (element) type is struct
-	Impl     bool // the field is a Message / custom implementer (opaque payload)
-	ImplLen  int  // length of the payload handed to the implementer's Unmarshal
+	Declared bool      // the number is declared by the descriptor at this level
+	Embedded bool      // the library's "embedded" flag: base kind of the field (element) type is struct
+	Impl     bool      // the field is a Message / custom implementer (opaque payload)
+	ImplLen  int       // length of the payload handed to the implementer's Unmarshal
 	Sub      *TypeDesc // descriptor of the embedded message (IsMsg)
 }
 
